@@ -69,6 +69,15 @@ Theorem detect_fails_internal_find_missing : forall w s ds s' out,
 Proof. exact detect_find_missing. Qed.
 Print Assumptions detect_fails_internal_find_missing.
 
+(** the FindMissing refresh of one digest: the location the digest resolved
+    to failed validation and the boundary now lies above its block *)
+Theorem detect_fails_internal_refresh : forall w s o i r s',
+  fm_refresh_one w s o i = (r, s') -> s_negs s' <> s_negs s ->
+  r = Err cInternal /\ s_negs s' = S (s_negs s) /\
+  exists k l, least_specific s (lookup_keys w o i) = Some (k, l) /\ l_abs l + 1 <= s_tbr s'.
+Proof. exact detect_fm_refresh_one. Qed.
+Print Assumptions detect_fails_internal_refresh.
+
 (** no false alarm: bytes equal to the content are never condemned *)
 Theorem no_detection_on_intact_bytes : forall w s o u l,
   read_block s u (l_off l) (l_size l) = content w o -> fst (fst (read_validated w s o u l)) = true.
